@@ -47,4 +47,7 @@ if __name__ == '__main__':
         except AnalysisIncomplete as e:
             print(f"ANALYSIS-INCOMPLETE property={pid} {e}")
             code = 2
+        except Exception as e:
+            print(f"ANALYSIS-INCOMPLETE property={pid} internal error of the checker: {type(e).__name__}: {e}")
+            code = 2
         print(f"EXIT {pid} {code}", flush=True)
